@@ -16,6 +16,7 @@ import (
 	"fmt"
 	"os"
 	"path/filepath"
+	"regexp"
 	"sort"
 	"strings"
 	"sync"
@@ -63,6 +64,7 @@ type state struct {
 	sampleFam    map[string]int
 	genRejected  []string
 	crashSamples []map[string]any
+	gccKinds     map[string]bool
 	gccRejected  []string
 	compileSec   map[string]float64
 	crossChecked atomic.Int64
@@ -82,6 +84,7 @@ type state struct {
 	batches       atomic.Int64
 	suspendedExec atomic.Int64
 	maskedRI      atomic.Int64
+	hung          atomic.Int64
 }
 
 func (s *state) problem(format string, a ...any) {
@@ -185,6 +188,7 @@ func (s *state) handle(worker int, progs []*cdrive.ProgInfo) {
 		s.steps.Add(j.Steps)
 		s.suspendedExec.Add(j.Suspended)
 		s.maskedRI.Add(j.MaskedRI)
+		s.hung.Add(j.Hung)
 		if j.CappedExec || j.CappedStates || j.CappedTuples {
 			s.cappedProgs.Add(1)
 		}
@@ -318,12 +322,30 @@ func (s *state) noteRejected(b *cdrive.Batch) {
 		if pi.GccErr == "" {
 			continue
 		}
-		s.r.HistAdd("c_compiler_rejected_generated_c (C11)", pi.Family, 1)
-		if len(s.gccRejected) < 5 {
+		kind := pi.Family + ": " + gccErrKind(pi.GccErr)
+		s.r.HistAdd("c_compiler_rejected_generated_c (C11)", kind, 1)
+		if !s.gccKinds[kind] && len(s.gccRejected) < 10 {
+			s.gccKinds[kind] = true
 			s.gccRejected = append(s.gccRejected, pi.GccErr+"\n"+pi.Src)
 		}
 		pi.GccErr = ""
 	}
+}
+
+var gccMsgRe = regexp.MustCompile(`error: ([^\n]*)`)
+var pkgNameRe = regexp.MustCompile(`p\d{5}`)
+
+// gccErrKind abstracts a compiler diagnostic: the message with package names removed.
+func gccErrKind(text string) string {
+	m := gccMsgRe.FindStringSubmatch(text)
+	if m == nil {
+		return firstLine(text)
+	}
+	k := pkgNameRe.ReplaceAllString(m[1], "pN")
+	if len(k) > 90 {
+		k = k[:90]
+	}
+	return k
 }
 
 func firstLine(s string) string {
@@ -389,9 +411,9 @@ func main() {
 	r.Add("toolchain_build_ms", time.Since(t0).Milliseconds())
 
 	s := &state{r: r, tools: tools, famPrograms: map[string]int64{}, famCompared: map[string]int64{}, constructs: map[string]int64{},
-		statuses: map[string]int64{}, crashKinds: map[string]int64{}, cfgCompared: map[string]int64{}, sampleFam: map[string]int{}, compileSec: map[string]float64{}}
+		statuses: map[string]int64{}, crashKinds: map[string]int64{}, cfgCompared: map[string]int64{}, sampleFam: map[string]int{}, compileSec: map[string]float64{}, gccKinds: map[string]bool{}}
 	cfg := cdrive.WalkConfig{Tier: r.Tier, BatchSize: 96,
-		Families: []string{"extras", "loops", "calls", "io", "coro", "seeds", "arith", "index", "refine", "facts"},
+		Families: []string{"extras", "loops", "calls", "io", "coro", "seeds", "index", "arith", "refine", "facts"},
 		Extra:    map[string]progen.Family{"extras": extras()},
 		MaxLevel: map[string]int{},
 	}
@@ -415,6 +437,10 @@ func main() {
 		// quick: the facts trie is the C01 / C02 work-horse; for the translation only
 		// its first two levels are taken (every statement of the alphabet, alone and in pairs with the core alphabet).
 		cfg.MaxLevel["facts"] = 2
+		// refine is about the checker's refinement rules; its cgen-relevant
+		// statements (argument checks, copy_from_slice!, bulk_memset!, refined
+		// element stores) all occur within the first three levels (898 programs; the 4th has 3 625 more).
+		cfg.MaxLevel["refine"] = 3
 	}
 	if f := os.Getenv("C04_FAMILIES"); f != "" {
 		cfg.Families = strings.Split(f, ",")
@@ -465,6 +491,11 @@ func main() {
 	for _, c := range s.configs {
 		cfgNames = append(cfgNames, c.Name+" ("+c.CC+" "+strings.Join(c.Flags, " ")+")")
 	}
+	// r.Finish exits the process: clean up first.
+	tools.Close()
+	if mine {
+		os.RemoveAll(scratch)
+	}
 	r.Finish(ev.Coverage{
 		Evaluations:        s.comparisons.Load(),
 		DistinctNontrivial: s.nontrivial.Load(),
@@ -479,14 +510,15 @@ func main() {
 			"interpreter_executions": s.executions.Load(), "interpreter_statements": s.steps.Load(),
 			"executions_not_replayed_because_the_interpreter_found_a_safety_violation (C01)":                            s.notReplayed.Load(),
 			"executions_whose_reader_position_is_not_compared (suspended inside a partially available multi-byte read)": s.maskedRI.Load(),
-			"executions_ending_in_a_suspension":               s.suspendedExec.Load(),
-			"programs_with_capped_exploration":                s.cappedProgs.Load(),
-			"programs_whose_signature_the_driver_cannot_call": s.unsupported.Load(),
-			"digest_mismatches":                               s.mismatches.Load(),
-			"batches":                                         s.batches.Load(),
-			"configurations":                                  cfgNames,
-			"c_compile_seconds":                               s.compileSec,
-			"pch_seconds":                                     s.tools.PchSeconds,
+			"interpreter_executions_that_hit_the_step_limit (not replayed)":                                             s.hung.Load(),
+			"executions_ending_in_a_suspension":                                                                         s.suspendedExec.Load(),
+			"programs_with_capped_exploration":                                                                          s.cappedProgs.Load(),
+			"programs_whose_signature_the_driver_cannot_call":                                                           s.unsupported.Load(),
+			"digest_mismatches": s.mismatches.Load(),
+			"batches":           s.batches.Load(),
+			"configurations":    cfgNames,
+			"c_compile_seconds": s.compileSec,
+			"pch_seconds":       s.tools.PchSeconds,
 			"worker_seconds_by_phase": map[string]float64{"cgen": float64(s.phaseNs[0].Load()) / 1e9, "c_compile": float64(s.phaseNs[1].Load()) / 1e9,
 				"interpreter_exploration": float64(s.phaseNs[2].Load()) / 1e9, "c_run_and_compare": float64(s.phaseNs[3].Load()) / 1e9},
 			"exploration_caps":             s.opt,
